@@ -17,14 +17,17 @@ func run(o hx.RunOpts) error {
 	p := hx.NewPrng(o.Seed)
 	s := hx.NewSession(o, "generated transaction programs (as C01) run through the phased API: Phase1Commit, then Phase2Commit or Rollback; the writer is parked before EVERY backend call of its work, both phases and the rollback, and at each pause a reader transaction (a freshly started other process, or the same process sharing its caches) scans every store and reads Count; "+
 		"oracle: the reader sees exactly the last committed state until the commit point and never anything of a rolled-back writer; tie: at every pause of the commit phases the registry images, blobs and counts on disk equal the state Model P has right before that call. distinct = canonical case hash; non-trivial = the writer changes at least one existing node or creates a root")
-	nprog := o.N(10, 60)
+	nprog := o.N(16, 60)
 	for i := 0; i < nprog; i++ {
 		pr := commitx.Gen(p.Fork())
 		pr.SepVals = false
-		for _, mode := range []struct{ same, rb bool }{{false, false}, {false, true}, {true, false}, {true, true}} {
-			if !o.Thorough() && mode.same && i%2 == 1 {
-				continue
-			}
+		for _, mode := range []struct {
+			same, rb bool
+			api      int
+		}{{false, false, 0}, {false, true, 1}, {true, false, 0}, {true, true, 0}, {true, false, 1}, {true, true, 1}, {true, false, 2}, {true, true, 2}} {
+			// api rotates the public call that performs each update / remove (Update, Find+UpdateCurrentValue,
+			// Find+UpdateCurrentItem; Remove, Find+RemoveCurrentItem): none of them may be visible to anybody else
+			pr.API = mode.api
 			ob, err := commitx.RunObserved(ctx, pr, mode.same, mode.rb)
 			if err != nil {
 				return err
@@ -34,7 +37,7 @@ func run(o hx.RunOpts) error {
 				s.Hit("skipped_program")
 				break
 			}
-			commitx.EmitC03(ctx, s, ob, fmt.Sprintf("%s same=%v rollback=%v", pr.Header(), mode.same, mode.rb))
+			commitx.EmitC03(ctx, s, ob, fmt.Sprintf("%s same=%v rollback=%v api=%d", pr.Header(), mode.same, mode.rb, mode.api))
 			s.Hit("runs")
 			s.HitN("pauses", len(ob.Pauses))
 			for _, pz := range ob.Pauses {
